@@ -221,6 +221,12 @@ theorem c20_x_store_fetch_requests_carry_filter :
     storeFetchReqBuilders = ["makeFetchReq"] ∧
     storeFetchCallArgs = ["singleDocsStream: si.makeFetchReq(ids, explain, fields)"] := by decide
 
+/-- the filter the proxy extracts depends on the pipes only (`firstFieldsPipe` takes nothing else); the code gets the
+pipes by re-parsing the WHOLE query with a nil mapping, where every field is a keyword field and any parse error
+means "no filter" (`c20_x_parse_shape`).  So the keyword literal parser must not reject a literal the store-side
+parse (real mapping, e.g. a text field) accepted: it has no error return at all. -/
+theorem c20_x_keyword_literals_never_rejected : keywordLiteralErrors = [] := by decide
+
 /-- `tryParseFieldsFilter`: parse with a nil mapping, first `*parser.PipeFields`, `AllowList = !Except` -/
 theorem c20_x_parse_shape :
     parseFilterSteps = ["q, err := parser.ParseSeqQL(query, nil)", "if err != nil { return FetchFieldsFilter{} }",
